@@ -48,8 +48,12 @@ Shapes ==
     D3 |-> [fields |-> <<[n |-> "R", v |-> VI(14)], [n |-> "D2", emb |-> "D2"]>>, methods |-> {}],
     D4 |-> [fields |-> <<[n |-> "D3", emb |-> "D3"]>>, methods |-> {}],
     S10 |-> [fields |-> <<[n |-> "Q", v |-> VI(15)], [n |-> "D4", emb |-> "D4"]>>, methods |-> {}],
+    \* the embedded struct's own type is unexported (type ubase struct{...}): its exported fields are promoted all the same
+    S11 |-> [fields |-> <<[n |-> "ubase", emb |-> "Base"], [n |-> "K", v |-> VI(21)]>>, methods |-> {}],
+    \* a struct with many fields: Y at position 130, Base embedded at position 131 (W promoted from there; X is also a direct field)
+    S12 |-> [fields |-> <<[n |-> "X", v |-> VI(41)]>> \o [i \in 1..128 |-> [n |-> "Fill", v |-> VI(i)]] \o <<[n |-> "Y", v |-> VS(<<52>>)], [n |-> "Base", emb |-> "Base"]>>, methods |-> {}],
     S9 |-> [fields |-> <<[n |-> "X", v |-> VI(91)]>>, methods |-> {[n |-> "Cust", v |-> [t |-> "embedded", sh |-> "Base"], ptr |-> TRUE]}] ]
-ShapeNames == {"S1", "S2", "S3", "S4", "S5", "S6", "S7", "S10"}
+ShapeNames == {"S1", "S2", "S3", "S4", "S5", "S6", "S7", "S10", "S11", "S12"}
 MapKinds == {"any", "mss", "msi", "mii"}        \* mii: map[interface{}]interface{}
 \* objects: a struct value, a pointer to it, or a map of one of three Go map types
 Objects == {[k |-> "struct", sh |-> sn, ptr |-> p, embnil |-> FALSE] : sn \in ShapeNames, p \in BOOLEAN}
